@@ -30,6 +30,11 @@ MANIFEST = dict(
     text=('Theorems of Props/C17.v on Model/BashSem.v (interpreter of the emitted bash skeleton over the emitted tables; variant Repaired '
           'mirrors /repo HEAD): C17_invocation_shapes -- for all tables, environments and command lines every logged invocation is ("","") '
           'while walking, (prefix,"") at the cursor, or (rest of the word, matched part) inside a word, and names an existing command; '
+          'C17_repaired_subword_spec -- for all tables (within-word expressions included; literal arrays non-empty and in decreasing '
+          'length), every environment and command line, return code, COMPREPLY and the whole invocation log equal '
+          'Spec/InvocationsSub.v (inside a word: longest expected literal / candidate consumed, commands run with (rest, matched part), '
+          'stop in front of a partially typed piece, accepting state required); C17_repaired_total -- never out of fuel, never a panic, '
+          'rc 0 or 1; '
           'C17_repaired_toplevel_spec -- for every environment and command line over tables without within-word expressions, return code, '
           'COMPREPLY and the whole invocation log equal Spec/Invocations.v, the specification written from the property (exactly the expected '
           'commands at the expected places with the expected arguments, candidates = text before the first tab, a word accepted iff it '
@@ -90,15 +95,16 @@ def witness_tables_tie(exe, res):
 
 
 def coq_spec_tie(case, ref, res, counters):
-    """Spec/Invocations.v (extracted) against the Python reference without quirks, on grammars without within-word
-    expressions: the two readings of the property must coincide (rc, COMPREPLY, log)."""
-    if ref.subs or not case.queries:
+    """Spec/InvocationsSub.v (extracted; the specification C17_repaired_subword_spec is about) against the Python
+    reference without quirks, on every generated grammar (within-word expressions included): the two readings of the
+    property must coincide (rc, COMPREPLY, log)."""
+    if not case.queries:
         return
     wb = t2.DEFAULT_WORDBREAKS if case.wordbreaks is None else case.wordbreaks
     outs = '(outputs %s)' % ' '.join('(%d %s)' % (cid, sexp.quote(t)) for cid, t in sorted(case.model_outputs().items()))
     qs = ' '.join('(q %s 0 %s (words %s) %s)' % (sexp.quote(wb), outs, ' '.join(sexp.quote(w) for w in ws), sexp.quote(p))
                   for ws, p in case.queries)
-    out = model.run(['specrun %d %s (queries %s)' % (case.start, case.tables, qs)], shard=1)[0]
+    out = model.run(['specrunsw %d %s (queries %s)' % (case.start, case.tables, qs)], shard=1)[0]
     try:
         sx = sexp.parse(out)
     except Exception:
@@ -113,9 +119,11 @@ def coq_spec_tie(case, ref, res, counters):
         coq = (int(m[1]), [str(x) for x in m[2][1:]], [(int(x[0]), str(x[1]), str(x[2])) for x in m[3][1:]])
         py = ref.run(ws, p)
         counters['spec_compared'] = counters.get('spec_compared', 0) + 1
+        if ref.subs:
+            counters['spec_compared_sub'] = counters.get('spec_compared_sub', 0) + 1
         if py in ('hang', 'unsupported') or (py[0], py[1], py[2]) != coq:
             res.violations.append(report.Violation(
-                'the two executable readings of C17 disagree (Spec/Invocations.v vs lib/vf/c17ref.py)',
+                'the two executable readings of C17 disagree (Spec/InvocationsSub.v vs lib/vf/c17ref.py)',
                 dict(kind='spec-vs-spec', words=ws, prefix=p, coq=coq, python=py), found_input=False))
 
 
@@ -177,6 +185,12 @@ def run(ctx, res):
             ref = Ref(sexp.parse(c.tables), sexp.parse(st['MIN']) if 'MIN' in st else None, c.model_outputs(),
                       t2.DEFAULT_WORDBREAKS if wb is None else wb, start=c.start)
             inv = {k: cid for cid, k in c.cid_to_probe.items()}
+            if any(l == '' for T in ref.subs.values() for l in T.literals) or \
+               any(len(a) < len(b) for T in ref.subs.values() for a, b in zip(T.literals, T.literals[1:])):
+                res.violations.append(report.Violation(
+                    'hypothesis wf_subwords of C17_repaired_total / C17_repaired_subword_spec broken: a within-word literal array '
+                    'with an empty text or not in decreasing length',
+                    dict(kind='theorem-hypothesis', grammar=text), found_input=False))
             coq_spec_tie(c, ref, res, counters)
             for q, r in zip(c.queries, c.results):
                 res.evaluations += 1
@@ -228,5 +242,6 @@ def run(ctx, res):
     res.extra['grammars_rejected_by_complgen'] = rejected
     res.extra['deviations_by_mechanism'] = attributed
     res.extra['coq_spec_vs_python_reference_compared'] = counters.get('spec_compared', 0)
+    res.extra['coq_spec_vs_python_reference_compared_with_subwords'] = counters.get('spec_compared_sub', 0)
     if done < len(items):
         res.notes.append('time budget reached after %d of %d grammars (loaded machine)' % (done, len(items)))
